@@ -107,6 +107,9 @@ func writerLengths() []int {
 	return ls
 }
 
+// allKMax: up to this length the thorough tier deviates at every k.
+const allKMax = 2<<20 + 256<<10 + 1
+
 func shortAmts() []string {
 	if vk.Thorough() {
 		return []string{"zero", "one", "minus1", "half"}
@@ -135,6 +138,9 @@ func frags(L int) []frag {
 		// later reads by the same amount); thorough: every k
 		if !vk.Thorough() && k > 8 && k < calls-2 {
 			continue
+		}
+		if vk.Thorough() && L > allKMax && k > 8 && k < calls-2 && k%4 != 0 {
+			continue // beyond 2.25 MiB+1: first 8, every 4th, last 3
 		}
 		for _, a := range shortAmts() {
 			if a == "zero" && k > 2 && k < calls {
@@ -188,6 +194,9 @@ func memGet(sto *hs.Mem) func(string) ([]byte, bool) {
 // map, so a fresh store per case would never be freed.
 var theStore *hs.Mem
 
+// reused across cases (the contents are 1-4 MiB; only one case runs at a time)
+var denBuf, gotBuf []byte
+
 func sharedStore() *hs.Mem {
 	if theStore == nil {
 		theStore = hs.NewMem("c15")
@@ -224,7 +233,8 @@ func runWrite(data []byte, f frag) (fail *failure, layout string) {
 		return &failure{"schema-walk", "missing-blob", "returned file ref " + ref.String() + " is not in the store"}, ""
 	}
 	var lay strings.Builder
-	den, err := walk(memGet(sto), root, &lay)
+	denBuf = denBuf[:0]
+	den, err := walk(memGet(sto), root, &lay, &denBuf)
 	if err != nil {
 		return &failure{"schema-walk", "missing-blob", err.Error()}, ""
 	}
@@ -241,7 +251,10 @@ func runWrite(data []byte, f frag) (fail *failure, layout string) {
 	if fr.Size() != int64(len(data)) {
 		return &failure{"NewFileReader", "readback-size", fmt.Sprintf("Size()=%d, input has %d bytes", fr.Size(), len(data))}, layout
 	}
-	got := make([]byte, len(data)+1)
+	if cap(gotBuf) < len(data)+1 {
+		gotBuf = make([]byte, len(data)+1)
+	}
+	got := gotBuf[:len(data)+1]
 	n, err := io.ReadFull(fr, got)
 	got = got[:n]
 	if err == nil {
@@ -272,7 +285,7 @@ func diffDesc(got, want []byte) string {
 // the JSON itself (encoding/json, not pkg/schema), follows blobRef/bytesRef,
 // fails on a reference that is not in the store, returns the denoted bytes
 // and writes the layout (sizes, nesting) to lay.
-func walk(get func(string) ([]byte, bool), schemaJSON []byte, lay *strings.Builder) ([]byte, error) {
+func walk(get func(string) ([]byte, bool), schemaJSON []byte, lay *strings.Builder, out *[]byte) ([]byte, error) {
 	var s struct {
 		Parts []struct {
 			BlobRef, BytesRef string
@@ -282,7 +295,7 @@ func walk(get func(string) ([]byte, bool), schemaJSON []byte, lay *strings.Build
 	if err := json.Unmarshal(schemaJSON, &s); err != nil {
 		return nil, fmt.Errorf("schema blob does not parse: %v", err)
 	}
-	var out []byte
+	start := len(*out)
 	lay.WriteByte('[')
 	for _, p := range s.Parts {
 		var src []byte
@@ -299,10 +312,18 @@ func walk(get func(string) ([]byte, bool), schemaJSON []byte, lay *strings.Build
 			if !ok {
 				return nil, fmt.Errorf("referenced bytes schema %s (size %d) is not in the store", p.BytesRef, p.Size)
 			}
-			var err error
-			if src, err = walk(get, b, lay); err != nil {
+			// the sub-tree's bytes are appended to out; cut them back to the part's range
+			at := len(*out)
+			sub, err := walk(get, b, lay, out)
+			if err != nil {
 				return nil, err
 			}
+			if p.Offset+p.Size > len(sub) {
+				return nil, fmt.Errorf("part (offset %d, size %d) exceeds its source of %d bytes", p.Offset, p.Size, len(sub))
+			}
+			copy((*out)[at:], sub[p.Offset:p.Offset+p.Size])
+			*out = (*out)[:at+p.Size]
+			continue
 		default:
 			src = make([]byte, p.Offset+p.Size)
 			fmt.Fprintf(lay, "hole%d ", p.Size)
@@ -310,10 +331,10 @@ func walk(get func(string) ([]byte, bool), schemaJSON []byte, lay *strings.Build
 		if p.Offset+p.Size > len(src) {
 			return nil, fmt.Errorf("part (offset %d, size %d) exceeds its source of %d bytes", p.Offset, p.Size, len(src))
 		}
-		out = append(out, src[p.Offset:p.Offset+p.Size]...)
+		*out = append(*out, src[p.Offset:p.Offset+p.Size]...)
 	}
 	lay.WriteByte(']')
-	return out, nil
+	return (*out)[start:], nil
 }
 
 // confirm re-runs a failing case; it reports whether it failed the same way
@@ -328,15 +349,14 @@ func confirm(n int, first *failure, again func() *failure) bool {
 	return true
 }
 
-func runWriterScenario(res *vk.Result) {
+func runWriterScenario(res *vk.Result, dl time.Time) {
 	sc := res.Scenario("writer")
 	kinds := dataKindsQuick
 	if vk.Thorough() {
 		kinds = dataKindsThorough
 	}
 	ls := writerLengths()
-	sc.Bound = fmt.Sprintf("lengths %v x data kinds %v (engineered kinds verified with the real rollsum; duplicates per length dropped) x fragmentations {whole, 1-byte reads (small lengths), data+EOF together, one short read (%v) at the k-th Read call of the undisturbed 32 KiB schedule for %s} x {EOF alone, EOF with last byte}", ls, kinds, shortAmts(), map[bool]string{false: "k<=8 and the last 3 calls", true: "every k"}[vk.Thorough()])
-	dl := vk.Deadline()
+	sc.Bound = fmt.Sprintf("lengths %v x data kinds %v (engineered kinds verified with the real rollsum; duplicates per length dropped) x fragmentations {whole, 1-byte reads (small lengths), data+EOF together, one short read (%v) at the k-th Read call of the undisturbed 32 KiB schedule for %s} x {EOF alone, EOF with last byte}", ls, kinds, shortAmts(), map[bool]string{false: "k<=8 and the last 3 calls", true: "every k (lengths > 2.25 MiB+1: k<=8, every 4th, last 3)"}[vk.Thorough()])
 	k := 0
 	si, sn := vk.Shard()
 	isMine := func(k int) bool { return k%sn == si }
